@@ -49,6 +49,11 @@ type MemQuerier struct {
 	ErrAfter int
 	// ErrOnCall restricts ErrAfter to the k-th (1-based) SelectLogs call; 0 = all calls.
 	ErrOnCall int
+	// RecordLevel names the labels the storage keeps as attributes of the record itself; ScopeLevel those
+	// it keeps on the instrumentation scope. All others are resource attributes, and records whose
+	// resource-level labels coincide share one resource map (as the records of one container do).
+	RecordLevel map[string]bool
+	ScopeLevel  map[string]bool
 
 	mu          sync.Mutex
 	selectCalls int
@@ -158,8 +163,8 @@ recs:
 		// records of one label set share one resource map, the way all records of a container share
 		// the container's resource in the Docker storage: a stage that writes into it would leak into
 		// the following records
-		lk := labelKey(rec.Labels)
-		r := memRecord(rec)
+		r, resLabels := m.memRecordSplit(rec)
+		lk := labelKey(resLabels)
 		if res, ok := shared[lk]; ok {
 			r.ResourceAttrs = res
 		} else {
@@ -194,6 +199,39 @@ func memRecord(rec Rec) logstorage.Record {
 		Attrs:             otelstorage.Attrs(pcommon.NewMap()),
 		ResourceAttrs:     otelstorage.Attrs(res),
 	}
+}
+
+// memRecordSplit distributes the labels over the record's three attribute maps.
+func (m *MemQuerier) memRecordSplit(rec Rec) (logstorage.Record, map[string]string) {
+	if len(m.RecordLevel) == 0 && len(m.ScopeLevel) == 0 {
+		return memRecord(rec), rec.Labels
+	}
+	res, attrs, scope := pcommon.NewMap(), pcommon.NewMap(), pcommon.NewMap()
+	resLabels := map[string]string{}
+	keys := make([]string, 0, len(rec.Labels))
+	for k := range rec.Labels {
+		keys = append(keys, k)
+	}
+	sort.Strings(keys)
+	for _, k := range keys {
+		switch {
+		case m.RecordLevel[k]:
+			attrs.PutStr(k, rec.Labels[k])
+		case m.ScopeLevel[k]:
+			scope.PutStr(k, rec.Labels[k])
+		default:
+			res.PutStr(k, rec.Labels[k])
+			resLabels[k] = rec.Labels[k]
+		}
+	}
+	return logstorage.Record{
+		Timestamp:         otelstorage.Timestamp(rec.TS),
+		ObservedTimestamp: otelstorage.Timestamp(rec.TS),
+		Body:              rec.Line,
+		Attrs:             otelstorage.Attrs(attrs),
+		ScopeAttrs:        otelstorage.Attrs(scope),
+		ResourceAttrs:     otelstorage.Attrs(res),
+	}, resLabels
 }
 
 type memIter struct {
@@ -586,4 +624,13 @@ func (f *FakeDocker) Ledger() (opened, closed, fired int, protocol []string) {
 	f.L.mu.Lock()
 	defer f.L.mu.Unlock()
 	return f.L.opened, f.L.closed, f.L.fired, append([]string(nil), f.L.protocol...)
+}
+
+func sortedKeys(m map[string]bool) []string {
+	out := make([]string, 0, len(m))
+	for k := range m {
+		out = append(out, k)
+	}
+	sort.Strings(out)
+	return out
 }
